@@ -29,8 +29,19 @@ LEVEL_NOTE = ("Reference matcher R-ignore implements exactly the five enumerated
               "at start-up when git is available (calibration only). Name -> language table is checked against Pygments at start-up.")
 
 DIRS = ["src", "pkg", ".hid", "tests", "build", "node_modules", "venv"]
-FILES = ["a.py", "b.js", "c.ts", "d.java", "e.c", "f.cpp", "g.cs", ".h.py", "n.txt", "m.rb", "noext"]
-LANG_OF_EXT = {"py": "Python", "js": "JavaScript", "ts": "TypeScript", "java": "Java", "c": "C", "cpp": "C++", "cs": "C#"}
+FILES = ["a.py", "b.js", "c.ts", "d.java", "e.c", "f.cpp", "g.cs", ".h.py", "n.txt", "m.rb", "noext",
+         # names whose language does not follow from "the usual extension": secondary extensions and whole-name rules
+         "h.h", "i.hpp", "j.cc", "k.mjs", "l.pyi", "BUILD", "SConstruct", "LICENSE", "Makefile"]
+LANG_OF_EXT = {"py": "Python", "pyi": "Python", "js": "JavaScript", "mjs": "JavaScript", "ts": "TypeScript", "java": "Java", "c": "C", "h": "C",
+               "cpp": "C++", "hpp": "C++", "cc": "C++", "cs": "C#"}
+LANG_OF_NAME = {"BUILD": "Python", "SConstruct": "Python"}
+
+
+def language_of(basename):
+    if basename in LANG_OF_NAME:
+        return LANG_OF_NAME[basename]
+    ext = basename.rsplit(".", 1)[1] if "." in basename.lstrip(".") else ""
+    return LANG_OF_EXT.get(ext)
 BUILTIN = [".bzr", ".direnv", ".eggs", ".git", ".git-rewrite", ".hg", ".ipynb_checkpoints", ".mypy_cache", ".nox", ".pants.d", ".pytest_cache",
            ".pytype", ".ruff_cache", ".svn", ".tox", ".venv", ".vscode", "__pypackages__", "_build", "buck-out", "build", "dist", "node_modules",
            "venv", "test", "tests"]
@@ -43,8 +54,7 @@ def universal_paths():
 
 
 def file_content(path):
-    ext = path.rsplit(".", 1)[1] if "." in os.path.basename(path).lstrip(".") else ""
-    lang = LANG_OF_EXT.get(ext)
+    lang = language_of(os.path.basename(path))
     if lang is None:
         return f"plain text for {path}\n"
     spec = {"lang": lang, "items": [{"k": "func", "name": "fn", "style": "same", "body": [{"k": "simple"}]}]}
@@ -84,10 +94,9 @@ def ref_selected(paths, patterns):
             continue
         if ref_excluded(p, BUILTIN + list(patterns)):
             continue
-        base = comps[-1]
-        ext = base.rsplit(".", 1)[1] if "." in base else ""
-        if ext in LANG_OF_EXT:
-            out[p] = LANG_OF_EXT[ext]
+        lang = language_of(comps[-1])
+        if lang is not None:
+            out[p] = lang
     return out
 
 
@@ -103,8 +112,7 @@ def calibrate():
             name = get_lexer_for_filename(f).__class__.name
         except ClassNotFound:
             name = None
-        ext = f.rsplit(".", 1)[1] if "." in f.lstrip(".") else ""
-        want = LANG_OF_EXT.get(ext)
+        want = language_of(f)
         got = name if name in Languages.by_name else None
         if want != got:
             raise core.HarnessError(f"name->language table disagrees with Pygments/codelimit for {f}: {want} vs {got}")
@@ -142,7 +150,11 @@ def run_scan(base: Path, spelling, patterns, source):
         cli = patterns
     elif source == "gitignore":
         gi = patterns
-    else:  # split over two sources
+    elif source == "option+config":
+        cli, cfg = patterns[:1], patterns[1:]
+    elif source == "option+gitignore":
+        cli, gi = patterns[:1], patterns[1:]
+    else:  # split over config file and .gitignore
         cfg, gi = patterns[:1], patterns[1:]
     for f in (proj / ".codelimit.yml", proj / ".gitignore"):
         if f.exists():
@@ -164,7 +176,7 @@ def run_scan(base: Path, spelling, patterns, source):
     Scanner._analyze_file = wrapped
     try:
         with harness.cwd(cwd), harness.captured():
-            if source == "option":
+            if cli:
                 from codelimit.__main__ import scan as cli_scan
 
                 try:
@@ -304,9 +316,11 @@ def run(ctx: core.Ctx):
                 combos.append((pats, source, sp))
         if len(pats) == 2:
             for sp in spellings:
-                combos.append((pats, "split", sp))
+                for src in ("split", "option+config", "option+gitignore"):
+                    combos.append((pats, src, sp))
+                    combos.append((pats[::-1], src, sp))
     ctx.bounds = {"dir_names": DIRS, "file_names": FILES, "depth": 2, "universal_tree_files": len(universal_paths()), "patterns": PATTERNS,
-                  "max_patterns": ctx.pick(1, 2), "sources": ["config", "option", "gitignore", "split"], "spellings": spellings, "calibration": cal,
+                  "max_patterns": ctx.pick(1, 2), "sources": ["config", "option", "gitignore", "config+gitignore", "option+config", "option+gitignore"], "spellings": spellings, "calibration": cal,
                   "degenerate_trees": list(DEGENERATE)}
     ctx.rule = ("case = (exclusion list, source, root spelling) scanned on the universal tree (every per-file decision over the name pool) + degenerate trees "
                 "+ pruned-tree differential. Non-trivial: at least one user exclusion pattern. Outcome = number of files reported.")
